@@ -218,7 +218,7 @@ Proof.
   unfold judge. rewrite Es.
   assert (Hn0 : nodup_keys (sp_fields s) = true).
   { apply nodup_keys_iff. rewrite Sf. unfold field_slices. rewrite field_slices_keys by exact Hrt. exact Hnd. }
-  rewrite Hn0. cbn [negb]. rewrite Erun. cbn [model_obs o_wits o_body o_aux o_tx o_hash_pre]. rewrite Hms.
+  rewrite Hn0. cbn [negb]. rewrite Erun. cbn [model_obs o_wits o_body o_aux o_tx o_hash_pre o_valid]. rewrite Hms.
   destruct (encode_wits_head (ft_wits tx1)) as [n [rr Hh]]. rewrite Hh.
   rewrite Rb, Ra, Rv, bytes_eqb_refl, Hiwf, entries_nodup, entries_keys_le.
   assert (Haux : match ft_aux tx1, ft_aux tx1 with Some a, Some b => bytes_eqb a b | None, None => true | _, _ => false end = true)
@@ -244,7 +244,7 @@ Proof.
     unfold written. destruct (f_raw f) as [raw|] eqn:Er; [apply bytes_eqb_refl|].
     exfalso. apply Hrt2; [|reflexivity]. clear - El. induction (w_fields (ft_wits tx)) as [|[k' f'] t IH]; cbn [lookup] in El; [discriminate|].
     destruct (k =? k') eqn:Ek; [injection El as ->; apply N.eqb_eq in Ek; subst; left; reflexivity|right; apply IH, El]. }
-  rewrite Hunt. reflexivity.
+  rewrite Hunt, Bool.eqb_reflx. reflexivity.
 Qed.
 
 (* the premise is satisfiable on a non-canonical input *)
